@@ -163,62 +163,66 @@ impl LibCase {
                     }
                 }
                 Some(el) => {
-                    if h.end == "exit" && (evs.len() != res.len()) {
-                        rep.violate(
-                            "C12",
-                            "request-count",
-                            "lib|requests",
-                            format!("[{eng} lib] {label}: task {t} made {} entropy requests for {} generations", evs.len(), res.len()),
-                        );
-                        continue;
-                    }
-                    for (ev, r) in evs.iter().zip(res.iter()) {
-                        if ev.len as usize != el {
+                    use crate::cases::newcase::carries;
+                    for ev in &evs {
+                        if (ev.len as usize) < el {
                             rep.violate(
                                 "C12",
                                 "request-size",
                                 "lib|reqlen",
+                                format!("[{eng} lib] {label}: task {t} requested {} bytes, ENT is {el}", ev.len),
+                            );
+                        }
+                    }
+                    // every returned phrase carries bytes that were delivered to THIS task's own
+                    // requests (any of them: an implementation may read ahead), no two of a task's
+                    // phrases carry the same bytes, and a task whose request failed reports an error
+                    let mut seen: Vec<String> = Vec::new();
+                    for r in res.iter().filter(|r| r.ok) {
+                        let e = rm::bip39_decode(&r.text).ok().map(hex::encode).unwrap_or_default();
+                        let own = evs.iter().any(|ev| ev.ok && carries(&ev.bytes, &e));
+                        if !own {
+                            let whose = h.entropy.iter().find(|x| x.ok && carries(&x.bytes, &e)).map(|x| x.task);
+                            rep.violate(
+                                "C12",
+                                "entropy-not-from-own-request",
+                                "lib|crossed",
                                 format!(
-                                    "[{eng} lib] {label}: task {t} requested {} bytes, ENT is {el}",
-                                    ev.len
+                                    "[{eng} lib] {label}: task {t} call {} returned {:?} (entropy {e}); its own requests were delivered [{}]{}",
+                                    r.call,
+                                    r.text.chars().take(100).collect::<String>(),
+                                    evs.iter().map(|ev| if ev.ok { ev.bytes.clone() } else { format!("FAIL {}", ev.errno) }).collect::<Vec<_>>().join(", "),
+                                    whose.map(|w| format!(" — those are bytes delivered to task {w}")).unwrap_or_else(|| " — no request was ever delivered those bytes".into())
                                 ),
                             );
                         }
-                        if ev.ok {
-                            let want =
-                                rm::bip39_encode(&hex::decode(&ev.bytes).unwrap_or_default());
-                            if !r.ok || Some(&r.text) != want.as_ref() {
-                                let whose = rm::bip39_decode(&r.text)
-                                    .ok()
-                                    .map(hex::encode)
-                                    .and_then(|e| {
-                                        h.entropy
-                                            .iter()
-                                            .find(|x| x.ok && x.bytes == e)
-                                            .map(|x| x.task)
-                                    });
-                                rep.violate(
-                                    "C12",
-                                    "entropy-not-from-own-request",
-                                    "lib|crossed",
-                                    format!(
-                                        "[{eng} lib] {label}: task {t} call {} was delivered {} but returned {:?} (ok={}){}",
-                                        r.call,
-                                        ev.bytes,
-                                        r.text.chars().take(120).collect::<String>(),
-                                        r.ok,
-                                        whose.map(|w| format!(" — those are the bytes delivered to task {w}")).unwrap_or_default()
-                                    ),
-                                );
-                            }
-                        } else if r.ok {
+                        if seen.contains(&e) {
                             rep.violate(
                                 "C12",
-                                "entropy-failure-ignored",
-                                "lib|failure",
-                                format!("[{eng} lib] {label}: task {t} call {}: the source failed (errno {}) yet a phrase was returned: {:?}", r.call, ev.errno, r.text.chars().take(120).collect::<String>()),
+                                "entropy-repeated",
+                                "lib|repeated",
+                                format!("[{eng} lib] {label}: task {t} returned the same entropy {e} for two generations"),
                             );
                         }
+                        seen.push(e);
+                    }
+                    let failed = evs.iter().filter(|ev| !ev.ok).count();
+                    let errs = res.iter().filter(|r| !r.ok).count();
+                    if h.end == "exit" && failed > 0 && errs == 0 {
+                        rep.violate(
+                            "C12",
+                            "entropy-failure-ignored",
+                            "lib|failure",
+                            format!("[{eng} lib] {label}: {failed} entropy request(s) of task {t} failed, yet all of its {} generations returned a phrase", res.len()),
+                        );
+                    }
+                    if h.end == "exit" && failed == 0 && errs > 0 {
+                        rep.violate(
+                            "C12",
+                            "spurious-error",
+                            "lib|spurious",
+                            format!("[{eng} lib] {label}: task {t} reported {errs} error(s) although none of its entropy requests failed"),
+                        );
                     }
                 }
             }
